@@ -33,6 +33,8 @@ var vpC02Texts = []string{
 	"f(a, b...)", "f(...a)", "f(a..., b)", "a ? : b", "a ? b :", "? a : b", "a b", "a +", "+ ", "(", ")", "[", "]", "f(", "f(a,", "a..b", "a.", ".a", "a!.", "1 2", "a ? b ? c : d", "a : b",
 	// a member name on the line after its dot (the parser looks ahead there), followed by stray / invalid bytes inside a list
 	"f(a.\nb #)", "[a.\nb #]", "f(a!.\nb @)", "f(a.\nb)", "[a.\nb]", "f(a\n.b #)", "f(a.\n#)", "[a.\n'x' #]", "f(a #)", "[# a]", "f(a.\nb #, c)", "[a.\nb # c]", "f(a.\nb \\)", "f(a.\n b ` )", "a.\nb #",
+	// a call's '(' on the line after its target, after an earlier call and member access in the same chain
+	"f(x).y\n(1, 2)", "a.b(c).d.e\n(g)", "f(x)!.y\n(1)", "f(x)\n(y)", "a.b\n(c)", "a\n(c)", "f(x).y(1)\n(2)", "[f(x).y\n(1)]", "g(f(x).y\n(1))", "f(x).y\n.z", "f(x).y\n!.z",
 }
 
 // vpC02LongTexts: longer generated formulas (a few hundred tokens): many sibling prefix
